@@ -121,6 +121,12 @@ CHECKS["C09"] = dict(
    note="Trusted: z3, symx.ptfront op translation (unknown op = inconclusive), numpy/pytensor samplers for Beta/Normal/uniform bits, pymc's own logp of Normal/Beta, pymc_ext.angle.",
    technique="symbolic evaluation of the real pytensor graphs + z3 (UF with named axioms); counterexamples replayed on pm.logp(...).eval()/pm.draw against scipy",
    ref="3/C09")
+CHECKS["C11"] = dict(
+   text="The pymc model the real setup_mcmc assembles is rebuilt every run and its graphs (model_rv through the real KeplerianOrbit, the observed Normal's mean/sigma/observed values, the ln_likelihood deterministic) are evaluated symbolically over all parameter values (Kepler op uninterpreted); z3 proves model_rv = K[cos w KCOS(M,e) - sin w KSIN(M,e) + e cos w] + M_trend.(v0, dv0.., v1..) with M = 2 pi x/P - M0 in the data's units, "
+        "obs ~ Normal(model_rv, sqrt(err^2+s^2)) observed at y, ln_likelihood = that Gaussian term (cut at model_rv), for priors in default and in other equivalent units; mcmc_init = the median-period row in the prior's units. Data sets concrete (3 epochs), poly_trend<=2, <=1 offset, constant/sampled jitter.",
+   note="Trusted: z3, symx.ptfront, exoplanet Kepler op contract, pymc's Normal logp; the prior part of model.logp (transforms/Jacobians) and NUTS outside; float constants compared within 1e-9.",
+   technique="symbolic evaluation of the real pytensor graphs + z3 (UF congruence, small NRA with named reciprocals); numeric replay of the real model against twobody",
+   ref="3/C11")
 NOT_YET = {}
 ALL = ["C%02d" % i for i in range(1, 20)]
 
